@@ -38,6 +38,7 @@ type ScanArt struct {
 	Auto     ScanAuto  `json:"auto"`
 	Perr     string    `json:"perr"`
 	Conflict bool      `json:"conflict"`
+	Live     bool      `json:"live"` // strict liveness comparison (the scanner follows the automaton while it is live)
 }
 
 // literalSource writes the characters of a literal term as EBNF string source (quotes and backslashes escaped).
